@@ -48,6 +48,8 @@ pub struct NodeState {
     pub calls: u64,
     /// when set, the call with this index (and the following ones while `down`) fails
     pub outage_at: Option<u64>,
+    /// shared with the simulated block source: the node as a whole is unreachable
+    pub link: Option<std::sync::Arc<std::sync::atomic::AtomicBool>>,
 }
 
 #[derive(Clone, Default)]
@@ -111,10 +113,37 @@ impl Transport for SimNode {
         st.calls += 1;
         if st.outage_at == Some(idx) {
             st.down = true;
+            st.outage_at = None;
+            if let Some(l) = &st.link {
+                l.store(true, std::sync::atomic::Ordering::SeqCst);
+            }
+        }
+        if let Some(l) = &st.link {
+            st.down = l.load(std::sync::atomic::Ordering::SeqCst);
         }
         if st.down {
             return Err(Error::Transport(Box::new(Outage)));
         }
+        // a kill just before the node receives the request / just after it has handled it
+        drop(st);
+        teos_common::verif::crash_point("rpc:pre");
+        let r = self.handle(req);
+        teos_common::verif::crash_point("rpc:post");
+        r
+    }
+
+    fn send_batch(&self, _reqs: &[Request]) -> Result<Vec<Response>, Error> {
+        Err(Error::EmptyBatch)
+    }
+
+    fn fmt_target(&self, f: &mut fmt::Formatter) -> fmt::Result {
+        write!(f, "simnode")
+    }
+}
+
+impl SimNode {
+    fn handle(&self, req: Request) -> Result<Response, Error> {
+        let mut st = self.0.lock().unwrap();
         let params: Vec<serde_json::Value> = match req.params {
             Some(p) => serde_json::from_str(p.get()).unwrap_or_default(),
             None => vec![],
@@ -168,11 +197,4 @@ impl Transport for SimNode {
         }
     }
 
-    fn send_batch(&self, _reqs: &[Request]) -> Result<Vec<Response>, Error> {
-        Err(Error::EmptyBatch)
-    }
-
-    fn fmt_target(&self, f: &mut fmt::Formatter) -> fmt::Result {
-        write!(f, "simnode")
-    }
 }
